@@ -27,9 +27,10 @@ import (
 // Conn represents a database connection.
 type Conn struct {
 	net.Conn
-	isClosed  bool
-	id        DatabaseID
-	authrized bool
+	closeMutex sync.Mutex
+	isClosed   bool
+	id         DatabaseID
+	authrized  bool
 	sync.Map
 	ts time.Time
 	tracer.Context
@@ -59,6 +60,9 @@ func newConnWith(conn net.Conn, tlsState *tls.ConnectionState) *Conn {
 
 // Close closes the connection.
 func (conn *Conn) Close() error {
+	// Close is called by the goroutine of the connection and by Stop.
+	conn.closeMutex.Lock()
+	defer conn.closeMutex.Unlock()
 	if conn.isClosed {
 		return nil
 	}
